@@ -31,6 +31,11 @@ def table_xml(spec):
     rows = "".join(row_xml([tuple(p) for p in r["enc"]], r.get("rep", 1)) for r in spec["rows"])
     cols = columns_xml(spec["cols"])
     wrap = spec.get("wrap")
+    if spec.get("colwrap") == "first":
+        # first column declaration(s) inside a table:table-columns group, the rest direct
+        cols = f"<table:table-columns>{columns_xml(spec['cols'][:1])}</table:table-columns>{columns_xml(spec['cols'][1:])}"
+    elif spec.get("colwrap") == "last":
+        cols = f"{columns_xml(spec['cols'][:-1])}<table:table-header-columns>{columns_xml(spec['cols'][-1:])}</table:table-header-columns>"
     if wrap == "lo":  # LibreOffice-like wrappers
         hdr = "".join(row_xml([tuple(p) for p in r["enc"]], r.get("rep", 1)) for r in spec["rows"][:1])
         rest = "".join(row_xml([tuple(p) for p in r["enc"]], r.get("rep", 1)) for r in spec["rows"][1:])
@@ -97,6 +102,9 @@ class TableMachine:
             {"kind": "xml", "rows": [{"enc": [[1, 1]], "rep": 2}, {"enc": [[2, 2], [3, 1]], "rep": 1}, {"enc": [], "rep": 1}], "cols": [4]},
             # LibreOffice-like header rows wrapper
             {"kind": "xml", "rows": [{"enc": [[1, 2], [2, 1]], "rep": 1}, {"enc": [[1, 2], [2, 1]], "rep": 1}, {"enc": [[3, 1], [None, 2]], "rep": 2}], "cols": [3], "wrap": "lo"},
+            # column declarations inside group elements
+            {"kind": "xml", "rows": [{"enc": [[1, 2], [2, 1]], "rep": 2}, {"enc": [[3, 1], [None, 2]], "rep": 1}], "cols": [2, 1], "colwrap": "first"},
+            {"kind": "xml", "rows": [{"enc": [[1, 2], [2, 1]], "rep": 2}, {"enc": [[3, 1], [None, 2]], "rep": 1}], "cols": [1, 2], "colwrap": "last"},
         ]
         self.seed_list.extend(extra)
         self.n_extra = len(extra)
